@@ -1,7 +1,8 @@
 """C18 — compilation is a pure function of its inputs.
 
 For each generated program the real compiler is run in fresh subprocesses under several configurations:
-PYTHONHASHSEED in {0, 1, 12345, random}, 0-4 other compiles earlier in the same process, three invocation
+PYTHONHASHSEED in {0, 1, 12345, random}, 0-4 other compiles earlier in the same process (plus a sweep of warm-up compiles that
+put the anonymous counter just below 10, 100 and 1000), three invocation
 directories (paths given relative to each), both back-ends.  Oracle: all outputs are equal after dropping the
 timestamp line and renaming anonymous domains consistently (first occurrence order), and no output defines a
 name twice within a namespace (sequences+super-sequences / strands / structures).
@@ -116,6 +117,22 @@ def run(st, tier, seed):
                 os.makedirs(os.path.join(root, "proj", inc), exist_ok=True)
             outs = {}
             seeds_cycle = ["0", "1", "12345", "random"]
+            # counter sweep: one earlier compile (a component with exactly k anonymous regions) puts the process's anonymous
+            # counter at k, so that this program's anonymous numbers straddle a decimal boundary (9|10, 99|100, 999|1000)
+            n_anon = len(set(re.findall(r'"[^"]*"', "\n".join(b.texts.values())))) or 1
+            ks = set()
+            for bound in (10, 100, 1000):
+                ks.update(k for k in (bound - 1, bound - 2, bound - max(1, n_anon // 2), bound - rng.randint(1, max(1, n_anon))) if k >= 0)
+            ks = sorted(ks)
+            if tier == "quick":
+                ks = rng.sample([k for k in ks if k < 100], 3) + rng.sample([k for k in ks if k >= 100], 1)
+            for k in ks:
+                wd = os.path.join(root, "warm%d" % k)
+                os.makedirs(wd, exist_ok=True)
+                with open(os.path.join(wd, "warm.comp"), "w") as f:
+                    f.write("declare component Warm: -> \n" + "".join('strand W%d = %s\n' % (j, " ".join(['"1N"'] * min(50, k - 50 * j)))
+                                                                      for j in range((k + 49) // 50)))
+            runs = []
             for fmt in ("pil", "des"):
                 for c in range(nconf if fmt == "pil" else max(2, nconf // 2)):
                     where = rng.choice(["proj", "root", "deep"])
@@ -132,16 +149,28 @@ def run(st, tier, seed):
                                          "out": os.path.relpath(os.path.join(root, "hist%d" % k, "o.pil"), cwd),
                                          "save": os.path.relpath(os.path.join(root, "hist%d" % k, "o.save"), cwd)}) for k in range(nh)]}
                     hs = seeds_cycle[c % 4]      # every program sees all the hash seeds
+                    runs.append((fmt, c, where, cwd, job, hs, nh))
+            for c, k in enumerate(ks):
+                for fmt in (("pil", "des") if c % 2 == 0 or tier != "quick" else ("pil",)):
+                    cwd = os.path.join(root, "proj")
+                    job = {"entry": b.entry, "includes": list(b.includes), "fmt": fmt, "out": "k%d.%s" % (k, fmt), "save": "k%d.save" % k,
+                           "history": [{"cwd": os.path.join(root, "warm%d" % k), "entry": "warm", "includes": [], "out": "o.pil", "save": "o.save"}]}
+                    runs.append((fmt, "k%d" % k, "proj", cwd, job, seeds_cycle[c % 4], "warm-%d-anon" % k))
+            for fmt, c, where, cwd, job, hs, nh in runs:
+                if True:
                     env = dict(os.environ, PYTHONHASHSEED=hs, PYTHONPATH=core.REPO, PEPPER_REPO=core.REPO, PYTHONDONTWRITEBYTECODE="1")
                     p = subprocess.run([sys.executable, worker, json.dumps(job)], cwd=cwd, env=env, capture_output=True, text=True, timeout=300)
                     res.evaluations += 1
-                    res.count("cwd:" + where); res.count("hashseed:" + hs); res.count("history:%d" % nh)
-                    conf = {"format": fmt, "cwd": where, "hashseed": hs, "earlier_compiles": nh, "includes": job["includes"], "entry": job["entry"]}
+                    res.count("cwd:" + where); res.count("hashseed:" + hs); res.count("history:%s" % (nh if isinstance(nh, int) else "counter-sweep"))
+                    conf = {"format": fmt, "cwd": where, "hashseed": hs, "earlier_compiles": nh, "anon_counter_before": None, "includes": job["includes"], "entry": job["entry"]}
                     inp = {"files": b.texts, "config": conf}
                     if p.returncode != 0:
                         res.violations.append({"what": "compile crashed in a subprocess", "input": inp, "observed": p.stderr[-400:], "sig": "C18:crash", "cmd": "pepper-compiler"})
                         continue
                     r = json.loads(p.stdout)
+                    conf["anon_counter_before"] = r["anon_before"]
+                    if not isinstance(nh, int):
+                        res.count("counter-before:%s" % ("<10" if r["anon_before"] < 10 else "<100" if r["anon_before"] < 100 else "<1000" if r["anon_before"] < 1000 else ">=1000"))
                     key = fmt
                     if not r["ok"]:
                         outs.setdefault(key, []).append((conf, None)); continue
